@@ -12,7 +12,9 @@ Outputs:
   coq/Gen/PanicSites.v      the inventory as a Coq list + the ids the hand-maintained map classifies as
                             covered by a model `Panic` point (Proofs/C07/Coverage.v checks them)
   tools/panic_sites.json    the inventory for tools/props/c07.py (written as a side effect)
-`tools/panic_map.json` (committed, hand-maintained) maps every key to a classification; ids of unmapped
+`tools/panic_map.json` (committed, hand-maintained) maps every key to a classification; a site whose exact key is
+missing may inherit the entry of a stale key by the conservative re-matching of rematch() (same file, function and
+kind, equally many rewritten as disappeared; or a helper extracted from the function that lost them); ids of unmapped
 sites start at 900000 so that they are visible in the Coq file as well.
 """
 import glob, hashlib, json, os, re
@@ -341,7 +343,12 @@ def reachable_functions(roots=("execute_current_instruction",)):
             for k2 in by_simple.get(ident, ()):
                 if k2 not in seen:
                     work.append(k2)
+    _BODIES.clear()
+    _BODIES.update(bodies)
     return seen, set(bodies.keys())
+
+
+_BODIES = {}   # (file, qualified function) -> identifiers of the body, filled by reachable_functions()
 
 
 def load_map():
@@ -352,6 +359,84 @@ def load_map():
 
 def coq_string(s):
     return '"' + s.replace('"', '""') + '"'
+
+
+def ascii_only(t):
+    return "".join(c if 32 <= ord(c) < 127 else "?" for c in t)
+
+
+def rematch(rows, pmap):
+    """Conservative re-matching of sites whose exact key is not in the map (the exact key stays the primary tie).
+
+    Rule 1 (rewritten in place): per (file, function, kind) let U be the unmapped current sites and S the stale
+    map entries (keys of that file/function/kind that no longer occur in the source).  Only if |U| == |S| are they
+    paired, in source order (S by id), and each site inherits the stale entry's id and classification.  If a site
+    was ADDED (|U| > |S|) the whole group stays unmapped; nothing is ever matched across functions by this rule.
+
+    Rule 2 (helper extracted): a function that has NO entry in the map at all may inherit from exactly one other
+    function of the same file -- one whose current body mentions the new function's name, that has at least |U|
+    stale entries of that kind left, all of them with the same class and lemma.  (A renamed or moved function is not
+    called by the function that lost the sites, so renames and moves still alarm.)
+
+    Returns the list of re-matched records."""
+    present = {r["key"] for r in rows}
+    stale = {}
+    fn_has_entries = set()
+    for key, ent in pmap.items():
+        parts = key.split(" :: ", 3)
+        if len(parts) < 4:
+            continue
+        fn_has_entries.add((parts[0], parts[1]))
+        if key not in present:
+            stale.setdefault((parts[0], parts[1], parts[2]), []).append((ent["id"], key, ent))
+    for g in stale:
+        stale[g].sort(key=lambda t: t[0])
+    groups = {}
+    for r in rows:
+        if r["class"] == "UNMAPPED":
+            groups.setdefault((r["file"], r["function"], r["kind"]), []).append(r)
+    out = []
+
+    def inherit(r, st, rule):
+        (sid, skey, ent) = st
+        r["id"], r["class"] = sid, ent["class"]
+        r["rematched_from"] = skey
+        r["rematch_rule"] = rule
+        if ent.get("lemma"):
+            r["lemma"] = ent["lemma"]
+        out.append({"id": sid, "class": ent["class"], "lemma": ent.get("lemma"), "rule": rule, "file": r["file"],
+                    "function": r["function"], "kind": r["kind"], "old_key": skey, "old_text": skey.split(" :: ", 3)[3],
+                    "new_text": r["text"], "line": r["line"]})
+
+    # rule 1
+    for g, us in sorted(groups.items()):
+        ss = stale.get(g, [])
+        if us and len(us) == len(ss):
+            for r, st in zip(sorted(us, key=lambda r: r["line"]), ss):
+                inherit(r, st, "rewritten-in-place")
+            stale[g] = []
+    # rule 2
+    for g, us in sorted(groups.items()):
+        if not us or us[0]["class"] != "UNMAPPED":
+            continue
+        (rel, fn, kind) = g
+        if (rel, fn) in fn_has_entries:
+            continue
+        simple = fn.split("::")[-1]
+        cands = []
+        for (rel2, fn2, kind2), ss in stale.items():
+            if rel2 != rel or kind2 != kind or fn2 == fn or len(ss) < len(us):
+                continue
+            if len({(e["class"], e.get("lemma")) for (_, _, e) in ss}) != 1:
+                continue
+            if simple in _BODIES.get((rel2, fn2), set()):
+                cands.append((rel2, fn2, kind2))
+        if len(cands) == 1:
+            ss = stale[cands[0]]
+            for r, st in zip(sorted(us, key=lambda r: r["line"]), ss[:len(us)]):
+                inherit(r, st, "helper-extracted-from " + cands[0][1])
+            stale[cands[0]] = ss[len(us):]
+    return out
 
 
 def generate():
@@ -380,7 +465,12 @@ def generate():
         s["reachable"] = (s["file"], s["function"]) in reach
         by_kind[s["kind"]] = by_kind.get(s["kind"], 0) + 1
         rows.append(s)
-    blob = json.dumps({"sites": rows, "by_kind": by_kind, "files": files()}, indent=1, sort_keys=True)
+    rematched = rematch(rows, pmap)
+    for s in rows:
+        if s.get("rematched_from") and s["class"] == "model":
+            modelled.append(s["id"])
+            modelled_lemmas.append((s["id"], s.get("lemma", "")))
+    blob = json.dumps({"sites": rows, "by_kind": by_kind, "files": files(), "rematched": rematched}, indent=1, sort_keys=True)
     old = open(SITES_PATH).read() if os.path.exists(SITES_PATH) else None
     if old != blob:
         with open(SITES_PATH, "w") as f:
@@ -403,6 +493,10 @@ def generate():
     out.append("(* ... and the lemma of coq/Proofs/C07 that the map cites for each (Proofs/C07/Coverage.v checks that every name is proved) *)")
     out.append("Definition modelled_site_lemmas : list (N * string) :=\n  [%s].\n" % ";\n   ".join(
         "(%d%%N, %s)" % (i, coq_string(l)) for (i, l) in sorted(set(modelled_lemmas))))
+    out.append("(* sites whose line was rewritten (exact key not in the map) and that inherited the classification of the stale entry\n"
+               "   they replace, by the conservative re-matching rule of tools/sync/panicsites.py: id, old text, new text *)")
+    out.append("Definition rematched_sites : list (N * string * string) :=\n  [%s].\n" % ";\n   ".join(
+        "(%d%%N, %s, %s)" % (r["id"], coq_string(ascii_only(r["old_text"])), coq_string(ascii_only(r["new_text"]))) for r in rematched))
     out.append("Definition unmapped_sites : list N := [%s].\n" % "; ".join("%d" % s["id"] for s in rows if s["class"] == "UNMAPPED"))
     return {"PanicSites.v": "\n".join(out) + "\n"}
 
